@@ -176,6 +176,11 @@ def run(ctx, eng):
             if flag not in conds and 'not ' + flag not in conds:
                 bad.append('%s is not consulted' % flag)
         v = p.value
+        if v in (None, T.NONE):
+            # handed the event, it stores the list there itself
+            hw = [e for e in p.events if e.kind == 'write' and
+                  e.attr == 'headers' and e.base[0] == 'p']
+            v = hw[-1].value if len(hw) == 1 else T.NONE
         if not (v[0] == 'call' and v[1] == 'list'):
             bad.append('the result is not made concrete with list()')
     ctx.ob('PIPE.inbound', f2.qual, 'normalise -> validate -> decode, each '
